@@ -78,9 +78,10 @@ Fixpoint insert_rows (krs : list (key * row)) (t : tbl) : option tbl :=
 Definition valid_key_value (v : value) : bool :=
   match v with VNull => false | VInt 0 => false | _ => true end.
 
-(* generated keys of one statement: LastInsertId is the first, the others follow (auto_increment_increment = 1) *)
-Fixpoint gen_keys (next : Z) (n : nat) : list key :=
-  match n with O => [] | S n' => [VInt next] :: gen_keys (next + 1)%Z n' end.
+(* generated keys of one statement, ids = (LastInsertId, auto_increment_increment): LastInsertId is the first,
+   the others follow with the step the session's SHOW VARIABLES answers (autoGeneratePks) *)
+Fixpoint gen_keys (ids : Z * Z) (n : nat) : list key :=
+  match n with O => [] | S n' => [VInt (fst ids)] :: gen_keys ((fst ids + snd ids)%Z, snd ids) n' end.
 
 Definition all_explicit (ks : list key) : bool := forallb (forallb valid_key_value) ks.
 Definition all_generated (ks : list key) : bool :=
@@ -90,7 +91,7 @@ Definition all_generated (ks : list key) : bool :=
    key columns listed with explicit values: those values, one key per VALUES row;
    single key column listed with NULL / 0 in every row, or omitted: LastInsertId, LastInsertId + 1, ... one per row;
    explicit and generated values mixed in one statement: refused *)
-Definition recover (listed : option (list key)) (last_id : Z) (nrows : nat) : option (list key) :=
+Definition recover (listed : option (list key)) (last_id : Z * Z) (nrows : nat) : option (list key) :=
   match listed with
   | Some ks =>
       if all_explicit ks then Some ks
@@ -99,7 +100,7 @@ Definition recover (listed : option (list key)) (last_id : Z) (nrows : nat) : op
   | None => Some (gen_keys last_id nrows)
   end.
 
-Definition at_insert (trk : list nat) (krs : list (key * row)) (listed : option (list key)) (last_id : Z) (t : tbl) : res :=
+Definition at_insert (trk : list nat) (krs : list (key * row)) (listed : option (list key)) (last_id : Z * Z) (t : tbl) : res :=
   match insert_rows krs t with
   | None => Err EDupKey
   | Some t' =>
@@ -130,7 +131,7 @@ Definition at_upsert (pk all : list nat) (assigns_pk : bool) (m : list key) (u :
 
 (* what the database does with the key column of an INSERT: a listed value that is not NULL/0 is taken,
    NULL / 0 / an omitted column get consecutive generated values starting at LastInsertId *)
-Definition assigned_keys (listed : option (list key)) (last_id : Z) (nrows : nat) : list key :=
+Definition assigned_keys (listed : option (list key)) (last_id : Z * Z) (nrows : nat) : list key :=
   match listed with
   | Some ks => if all_explicit ks then ks else gen_keys last_id (length ks)
   | None => gen_keys last_id nrows
